@@ -11,6 +11,7 @@ from mirsym.engine import NONE, SOME, OK, It, UNIT, Panic
 from props.graphstub import SymGraph, GP, CID, plist, subset
 
 ID = 'C39'
+TECHNIQUE = 'symbolic execution of rustc MIR (path-forking) + z3 SMT queries per path; commit graph fully symbolic behind abstract index segments; violations reported on the solver verdict (pub(super) code; no native replay)'
 CRATES = ['jj-lib']
 NATIVE = None
 NATIVE_CONFIRM = False
